@@ -509,4 +509,104 @@ Proof.
     apply js_lex_lbrace. apply js_lex_members; [assumption|assumption|cbn; auto|]. apply js_lex_rbrace. assumption.
 Qed.
 
+(* ================================================================ Part 4: the encoder's output is ASCII, so ValidateUTF8 and skip_bom leave it alone *)
+Definition js_ascii (l : list Z) : Prop := Forall (fun c => 0 <= c < 128) l.
+
+Lemma js_ascii_app a b : js_ascii a -> js_ascii b -> js_ascii (a ++ b).
+Proof. intros. apply Forall_app. split; assumption. Qed.
+
+Lemma js_ascii_utf8 l : js_ascii l -> js_utf8_of l = l /\ Forall js_scalar l.
+Proof.
+  induction 1 as [|c l Hc Hl [IH1 IH2]]; [split; [reflexivity|constructor]|].
+  unfold js_utf8_of in *. cbn [map concat]. unfold js_utf8_enc at 1.
+  assert ((c <? 128) = true) as -> by lia. cbn [app]. rewrite IH1. split; [reflexivity|].
+  constructor; [|assumption]. unfold js_scalar. lia.
+Qed.
+
+Lemma js_sanitize_ascii l : js_ascii l -> js_sanitize l = l.
+Proof. intros H. destruct (js_ascii_utf8 l H) as [E Hs]. pose proof (js_sanitize_valid l Hs) as Hv. rewrite E in Hv. exact Hv. Qed.
+
+Lemma js_hex4_ascii x : 0 <= x < 65536 -> js_ascii (js_hex4 x).
+Proof.
+  intros H. unfold js_hex4, js_ascii.
+  repeat constructor; match goal with |- _ <= js_hexdigit ?n => pose proof (js_hexdigit_range n ltac:(lia)); lia
+                                     | |- js_hexdigit ?n < _ => pose proof (js_hexdigit_range n ltac:(lia)); lia end.
+Qed.
+
+Lemma js_esc_cp_ascii cp : js_scalar cp -> js_ascii (js_esc_cp cp).
+Proof.
+  intros [Hr Hs]. unfold js_esc_cp, js_ascii.
+  destruct (cp =? 8); [repeat constructor; lia|]. destruct (cp =? 9); [repeat constructor; lia|].
+  destruct (cp =? 10); [repeat constructor; lia|]. destruct (cp =? 12); [repeat constructor; lia|].
+  destruct (cp =? 13); [repeat constructor; lia|]. destruct (cp =? 34); [repeat constructor; lia|].
+  destruct (cp =? 92); [repeat constructor; lia|].
+  destruct ((cp <=? 31) || (127 <=? cp)) eqn:E.
+  - destruct (cp <=? 65535) eqn:E2.
+    + constructor; [lia|]. constructor; [lia|]. apply js_hex4_ascii. lia.
+    + constructor; [lia|]. constructor; [lia|]. apply js_ascii_app; [apply js_hex4_ascii; lia|].
+      constructor; [lia|]. constructor; [lia|]. apply js_hex4_ascii. lia.
+  - constructor; [lia|constructor].
+Qed.
+
+Lemma js_quote_ascii cps : Forall js_scalar cps -> js_ascii (js_quote (js_utf8_of cps)).
+Proof.
+  intros H. unfold js_quote. rewrite js_sanitize_valid, js_escape_valid by assumption.
+  constructor; [lia|]. apply js_ascii_app; [|constructor; [lia|constructor]].
+  induction H as [|c l Hc Hl IH]; [constructor|]. cbn [map concat]. apply js_ascii_app; [apply js_esc_cp_ascii; assumption|exact IH].
+Qed.
+
+Lemma ns_dec_ascii n : 0 <= n -> js_ascii (ns_dec n).
+Proof.
+  intros Hn. destruct (Z.eq_dec n 0) as [->|Hne]; [rewrite ns_dec_zero; constructor; [lia|constructor]|].
+  destruct (ns_dec_shape n ltac:(lia)) as (d & ds & E & Hd & Hds & _). rewrite E. constructor; [lia|].
+  apply Forall_forall. intros c Hc. rewrite forallb_forall in Hds. specialize (Hds c Hc). apply ns_isdigit_iff in Hds. lia.
+Qed.
+
+Lemma js_int_ascii z : js_ascii (js_int z).
+Proof. unfold js_int. destruct (z <? 0) eqn:E; [constructor; [lia|]|]; apply ns_dec_ascii; lia. Qed.
+
+Lemma js_bjoin_ascii xs : Forall js_ascii xs -> js_ascii (js_bjoin xs).
+Proof.
+  intros H. destruct H as [|x t Hx Ht]; [constructor|]. cbn [js_bjoin]. apply js_ascii_app; [assumption|].
+  induction Ht as [|y t Hy Ht IH]; [constructor|]. cbn [map concat]. apply js_ascii_app; [constructor; [lia|assumption]|exact IH].
+Qed.
+
+Theorem js_encode_ascii : forall v, js_wf v -> js_ascii (enc v).
+Proof.
+  apply (js_value_rect' (fun v => js_wf v -> js_ascii (enc v))).
+  - intros _. cbn. repeat constructor; lia.
+  - intros [|] _; cbn; repeat constructor; lia.
+  - intros z _. apply js_int_ascii.
+  - intros x _. cbn [js_encode]. destruct (js_fprint_ascii x) as (b & t & E & _ & H). rewrite E. exact H.
+  - intros s Hw. inv Hw. apply js_quote_ascii. assumption.
+  - intros l IH Hw. inv Hw. rewrite js_encode_arr. constructor; [lia|]. apply js_ascii_app; [|constructor; [lia|constructor]].
+    apply js_bjoin_ascii. apply Forall_forall. intros x Hx. apply in_map_iff in Hx as (v & <- & Hv).
+    rewrite Forall_forall in IH, H0. apply IH; auto.
+  - intros kvs IH Hw. inv Hw. rewrite js_encode_obj. constructor; [lia|]. apply js_ascii_app; [|constructor; [lia|constructor]].
+    apply js_bjoin_ascii. apply Forall_forall. intros x Hx. apply in_map_iff in Hx as (kv & <- & Hv).
+    rewrite Forall_forall in IH, H0. destruct (H0 kv Hv) as [(cps & Hs & Ek) Hwv].
+    apply js_ascii_app; [rewrite Ek; apply js_quote_ascii; assumption|]. constructor; [lia|]. apply IH; auto.
+Qed.
+
+(* ================================================================ C20: the receiver decodes an equal value *)
+Theorem js_roundtrip v :
+  js_wf v -> js_sorted v -> js_fits 0 v ->
+  js_decode _ js_fparse js_lim (enc v) = Some v.
+Proof.
+  intros Hwf Hs Hfit. pose proof (js_encode_ascii v Hwf) as Ha. unfold js_decode.
+  rewrite (js_sanitize_ascii _ Ha).
+  assert (js_skip_bom (enc v) = Some (enc v)) as ->.
+  { destruct (enc v) as [|b t]; [reflexivity|]. unfold js_skip_bom. inv Ha. assert ((b =? 239) = false) as -> by lia. reflexivity. }
+  pose proof (js_lex_encode v Hwf [] [] I js_lex_ok_nil (S (length (enc v)))) as Hl. rewrite !app_nil_r in Hl. rewrite Hl by lia.
+  pose proof (js_pval_toks v Hs 0 (S (2 * length (js_toks v))) [] Hfit ltac:(lia)) as Hp. rewrite app_nil_r in Hp. rewrite Hp.
+  reflexivity.
+Qed.
+
 End JsRt.
+
+Theorem js_roundtrip_integers (js_lim : option Z) (v : js_value Empty_set) :
+  js_wf _ v -> js_sorted _ v -> js_fits _ js_lim 0 v ->
+  js_decode Empty_set (fun _ => None) js_lim (js_encode Empty_set (fun x => match x with end) v) = Some v.
+Proof.
+  apply js_roundtrip; intros x; destruct x.
+Qed.
